@@ -10,7 +10,7 @@
       and tracked, per file format).
 
     Not modelled (exercised by the harness only): the `toml` crate, the textual split at the
-    section header, type errors inside the table, PathBuf::push with an absolute component and
+    section header, type errors inside the table,
     set_extension on names containing '.', Key::new's identifier check (the `quote` feature).
     Names are [Key]s: the string as written, trimmed (Key::new).
 
@@ -179,11 +179,21 @@ Definition config_new_old := config_new_with visit_map_old.
 (** ** Files *)
 Definition slash : N := 47.
 Definition dot : N := 46.
-(* PathBuf::push of a relative component *)
+(* PathBuf::push: an absolute component replaces the path, a relative one is appended
+   (with a separator unless the path already ends with one) *)
 Definition push (base comp : str) : str :=
-  match rev base with
-  | c :: _ => if c =? slash then base ++ comp else base ++ slash :: comp
-  | [] => comp
+  match comp with
+  | c0 :: _ =>
+      if c0 =? slash then comp
+      else match rev base with
+           | c :: _ => if c =? slash then base ++ comp else base ++ slash :: comp
+           | [] => comp
+           end
+  | [] =>
+      match rev base with
+      | c :: _ => if c =? slash then base else base ++ [slash]
+      | [] => []
+      end
   end.
 (* PathBuf::set_extension on a file name without '.' *)
 Definition with_ext (p ext : str) : str := p ++ dot :: ext.
